@@ -293,7 +293,12 @@ func GenC04(seed uint64, tier string) *Plan {
 	for i := 0; i < nf; i++ {
 		p := g.pickPath("missing")
 		d := g.content()
-		g.plan.Setup = append(g.plan.Setup, SetupOp{Put: p, Data: d})
+		op := SetupOp{Put: p, Data: d}
+		if g.r.Chance(0.2) {
+			// a file that was not written "now" and not through the server
+			op.MTime = rt.Pick(g.r, []string{"epoch", "ancient", "future", "odd-ns"})
+		}
+		g.plan.Setup = append(g.plan.Setup, op)
 		g.j.T.PutFile(p, d)
 	}
 	if g.r.Chance(0.6) {
